@@ -8,6 +8,7 @@ operation is an event, a scheduling point and a failpoint.
 from __future__ import annotations
 
 import builtins
+import contextlib
 import json
 import os as _os
 import threading
@@ -580,3 +581,33 @@ def disable_line_points():
         mon.register_callback(_LINE_TOOL, mon.events.LINE, None)
         mon.free_tool_id(_LINE_TOOL)
         _line_state["on"] = False
+
+
+@contextlib.contextmanager
+def coarse_timestamps(grid_s: float = 2.0):
+    """what os.stat / os.lstat / os.fstat (and so pathlib and os.path.getmtime) report as modification time is
+    floored to a grid of `grid_s` seconds, as on file systems with coarse timestamps (FAT: 2 s; some network file
+    systems: 1 s).  Forked children inherit the patch.  Nothing else about the file system changes."""
+    import os
+
+    real = {n: getattr(os, n) for n in ("stat", "lstat", "fstat")}
+    grid = int(grid_s * 1_000_000_000)
+
+    def coarse(fn):
+        def wrapper(*a, **k):
+            st = fn(*a, **k)
+            tup, dct = st.__reduce__()[1]
+            ns = dct["st_mtime_ns"] // grid * grid
+            tup = list(tup)
+            tup[8] = ns // 1_000_000_000
+            return os.stat_result(tuple(tup), dict(dct, st_mtime=ns / 1e9, st_mtime_ns=ns))
+
+        return wrapper
+
+    for n, fn in real.items():
+        setattr(os, n, coarse(fn))
+    try:
+        yield
+    finally:
+        for n, fn in real.items():
+            setattr(os, n, fn)
